@@ -515,3 +515,13 @@ num_harness!(num_arithmetic_shift_total__kf, 4, {
     kani::cover!(m == -63, "largest in-range right shift");
     core::mem::forget(r);
 });
+
+// C07: a negative power whose magnitude overflows the machine word must not panic
+num_harness!(num_expt_minus_30_total, 8, {
+    let l: isize = kani::any();
+    kani::assume(l >= -12 && l <= 12 && l != 0);
+    let res = expt(&IntV(l), &IntV(-30));
+    kani::cover!(l == 10, "ten to the minus thirty");
+    kani::cover!(matches!(res, Ok(_)), "a value came back");
+    core::mem::forget(res);
+});
